@@ -12,7 +12,7 @@ RULE = ("cli.run (the working tree's cmd/ objects run in a forked child of the A
         "with one unusable key) x -a x -O (file, stdout, none) x -I detached payload; jws sig — templates x keys x -c x -O "
         "x -o x -I, every token produced is verified by `jws ver` and by the library; jws fmt — conversions between the "
         "three serializations and detached payloads, verification preserved; jwe dec — tokens of every key management "
-        "x serialization x input form x key arguments x -O x -I; jwe fmt (modelled), jwe enc (implementation and oracle only); 529 deterministic command lines of the primitive-free subcommands; jwk "
+        "x serialization x input form x key arguments x -O x -I; jwe enc and jwe fmt (modelled; jwe enc byte for byte under a RAND_bytes tape); 529 deterministic command lines of the primitive-free subcommands; jwk "
         "thp / pub / eql / exc / gen / use on valid keys and keys the library refuses; b64 enc / dec on valid and invalid "
         "text. distinct = distinct command lines; non-trivial = every line")
 EXPLANATION = ("exit-status and output theorems are proved on the control-flow model of each subcommand (Jose/Cli.lean) over the "
@@ -447,11 +447,35 @@ def run_jwe(ctx):
                             prot["zip"] = "DEF"
                         fs = {"pt.bin": hx(pt), "k0.jwk": hx(js(key))}
                         argv = ["jwe", "enc", "-i", js({"protected": prot}), "-I", "pt.bin", "-k", "k0.jwk"] + (["-c"] if compact else []) + (["-O", detach] if detach else [])
-                        encs.append(("cli.run", {"argv": argv, "files": fs, "_key": key, "_detach": detach, "_why": "%s/%s zip=%s compact=%s -O %s" % (wrap, enc, zip_, compact, detach)}))
+                        encs.append(("cli.run", {"argv": argv, "files": fs, "rand": rng.randbytes(300).hex(), "_key": key, "_detach": detach,
+                                                 "_random": wrap in E.RANDOMIZED or zip_, "_why": "%s/%s zip=%s compact=%s -O %s" % (wrap, enc, zip_, compact, detach)}))
     encs.append(("cli.run", {"argv": ["jwe", "enc", "-i", js({"protected": {"enc": "A128GCM"}}), "-I", "pt.bin", "-k", "k0.jwk", "-k", "k1.jwk", "-c"],
                              "files": {"pt.bin": hx(pt), "k0.jwk": hx(js(pool["oct-16"])), "k1.jwk": hx(js(pool["oct-32"]))}, "_key": pool["oct-16"], "_detach": None,
                              "_must_fail": True, "_why": "compact with two recipients"}))
-    sent = [(o, strip(a)) for o, a in encs]
+    # more shapes of the command line: templates in -i / -r, several keys, header placement, missing pieces
+    for argv, fs, rnd_ in (
+            (["jwe", "enc", "-I", "pt.bin", "-k", "k0.jwk"], {"pt.bin": hx(pt), "k0.jwk": hx(js(pool["oct-16"]))}, False),
+            (["jwe", "enc", "-I", "pt.bin", "-k", "k0.jwk", "-k", "k1.jwk"], {"pt.bin": hx(pt), "k0.jwk": hx(js(pool["oct-16"])), "k1.jwk": hx(js(pool["oct-32"]))}, False),
+            (["jwe", "enc", "-I", "pt.bin", "-k", "k0.jwk", "-k", "k1.jwk", "-r", js({"header": {"kid": "a"}}), "-r", js({"header": {"kid": "b"}})],
+             {"pt.bin": hx(pt), "k0.jwk": hx(js(pool["oct-16"])), "k1.jwk": hx(js(pool["oct-24"]))}, False),
+            (["jwe", "enc", "-I", "pt.bin", "-k", "k0.jwk", "-r", "{}", "-r", "{}"], {"pt.bin": hx(pt), "k0.jwk": hx(js(pool["oct-16"]))}, False),
+            (["jwe", "enc", "-i", js({"unprotected": {"alg": "A128KW"}, "protected": {"enc": "A128GCM"}}), "-I", "pt.bin", "-k", "k0.jwk", "-c"],
+             {"pt.bin": hx(pt), "k0.jwk": hx(js(pool["oct-16"]))}, False),
+            (["jwe", "enc", "-i", js({"protected": {"enc": "A128GCM"}}), "-r", js({"header": {"alg": "A128GCMKW"}}), "-I", "pt.bin", "-k", "k0.jwk", "-c"],
+             {"pt.bin": hx(pt), "k0.jwk": hx(js(pool["oct-16"]))}, False),
+            (["jwe", "enc", "-I", "pt.bin", "-k", "set.jwk"], {"pt.bin": hx(pt), "set.jwk": hx(js({"keys": [pool["oct-16"], pool["oct-32"]]}))}, False),
+            (["jwe", "enc", "-k", "k0.jwk"], {"k0.jwk": hx(js(pool["oct-16"]))}, False),
+            (["jwe", "enc", "-I", "pt.bin"], {"pt.bin": hx(pt)}, False),
+            (["jwe", "enc", "-I", "nofile", "-k", "k0.jwk"], {"k0.jwk": hx(js(pool["oct-16"]))}, False),
+            (["jwe", "enc", "-I", "pt.bin", "-k", "k0.jwk"], {"pt.bin": hx(pt), "k0.jwk": hx(js(dict(pool["oct-16"], use="sig")))}, False),
+            (["jwe", "enc", "-i", js({"protected": {"alg": "nope"}}), "-I", "pt.bin", "-k", "k0.jwk"], {"pt.bin": hx(pt), "k0.jwk": hx(js(pool["oct-16"]))}, False),
+            (["jwe", "enc", "-i", "5", "-I", "pt.bin", "-k", "k0.jwk"], {"pt.bin": hx(pt), "k0.jwk": hx(js(pool["oct-16"]))}, False),
+            (["jwe", "enc", "-I", "pt.bin", "-k", "k0.jwk", "-o", "out.jwe", "-O", "ct.bin"], {"pt.bin": hx(pt), "k0.jwk": hx(js(pool["oct-32"]))}, False)):
+        encs.append(("cli.run", {"argv": argv, "files": fs, "rand": rng.randbytes(300).hex(), "_key": None, "_detach": None, "_random": rnd_, "_shape": True, "_why": " ".join(argv)[:120]}))
+    # correspondence with the model of the tool (exact output where the random tape decides every byte)
+    cmp(ctx, [x for x in encs], lambda a, real: None)
+    sent = [(o, strip(a)) for o, a in encs if not a.get("_shape")]
+    encs = [(o, a) for o, a in encs if not a.get("_shape")]
     re_ = ctx.real(sent)
     decs = []
     for (o, a), r in zip(encs, re_):
